@@ -6,6 +6,7 @@ import (
 	"github.com/bytom/bytom/protocol/bc"
 	"github.com/bytom/bytom/protocol/bc/types"
 	"github.com/bytom/bytom/protocol/vm/vmutil"
+	"strings"
 
 	"verif/sim/model"
 )
@@ -75,5 +76,10 @@ func (w *World) withRegistration(parent bc.Hash, res *ProposeResult, variant int
 	n.Activate()
 	out := &ProposeResult{Block: b, Node: n, Validator: res.Validator}
 	out.FeedOrphan, out.FeedErr = n.Chain.ProcessBlock(b)
+	if out.FeedErr != nil && strings.Contains(out.FeedErr.Error(), "gas is over the limit") {
+		// the harness, not the proposer, added the registration: on builds with a small block gas
+		// limit it may not fit; the proposer's own block is kept then
+		return nil
+	}
 	return out
 }
